@@ -13,11 +13,6 @@ pub open spec fn win_weight(s: Storage, a: Seq<char>, lp: Seq<char>, lo: u64, e:
 pub open spec fn eff_weight(s: Storage, a: Seq<char>, lp: Seq<char>, e: u64) -> nat { win_weight(s, a, lp, 0, e) }
 
 pub open spec fn no_weights(s: Storage, a: Seq<char>, lp: Seq<char>) -> bool { forall|e: u64| !has_weight(s, a, lp, e) }
-/// keys of other (address, lp) pairs are untouched
-pub open spec fn other_weights_same(s0: Storage, s1: Storage, a: Seq<char>, lp: Seq<char>) -> bool {
-    forall|k: (Seq<char>, Seq<char>, u64)| (k.0 != a || k.1 != lp) ==> (#[trigger] s1.weights@.dom().contains(k) == s0.weights@.dom().contains(k))
-        && (s0.weights@.dom().contains(k) ==> s1.weights@[k] == s0.weights@[k])
-}
 
 pub proof fn lemma_win_weight_no_snapshots(s: Storage, a: Seq<char>, lp: Seq<char>, lo: u64, e: u64)
     requires forall|k: u64| lo <= k <= e ==> !has_weight(s, a, lp, k),
